@@ -21,7 +21,9 @@ SHARD_TIMEOUT = {"quick": 900, "thorough": 5400}
 
 UNIVERSE = ["a", "a/b", "a/b/c.txt", "a/b.txt", "a/d.txt", "a/bc", "e.txt", "f/g.json", "f/g", "f", "h.x/y.z", "a/b/c",
             # top-level names that sort between a directory and its content ('.', '-' and ' ' sort before '/')
-            "a.csv", "f-1", "a/b c"]
+            "a.csv", "f-1", "a/b c",
+            # a name close to what a file system allows for one component (room for a '.json' beside it, not more)
+            "a/" + "L" * 244 + ".txt"]
 
 
 def shards(tier, seed):
